@@ -19,7 +19,7 @@ sys.path.insert(0, ROOT)
 
 from pyvc import loader, runtime, bounded, worlds, spec  # noqa: E402
 
-EVID = os.path.join(ROOT, "evidence")
+EVID = os.environ.get("VERIF_EVIDENCE_DIR") or os.path.join(ROOT, "evidence")
 REPLAYS = os.path.join(ROOT, "replays")
 KNOWN_FILE = os.path.join(ROOT, "known_findings.json")
 
